@@ -30,6 +30,7 @@ type scenario struct {
 	Shutdown []shutStep `json:"shutdown"`  // application calls, each fired when the global step counter reaches At
 	LateDial bool       `json:"late_dial"` // a client keeps dialing while the server shuts down
 	BigBox   bool       `json:"big_box"`   // a mailbox with large messages exists (slow-reader ending)
+	CtxCancel bool      `json:"ctx_cancel"` // the clients are served through a second listener whose Serve context the application cancels
 	Flood    int        `json:"flood"`     // further flag updates per user submitted in a row (while slow readers keep a session blocked)
 }
 
@@ -40,7 +41,7 @@ type clientSc struct {
 }
 
 type shutStep struct {
-	Call string `json:"call"` // "close" | "remove:<user index>"
+	Call string `json:"call"` // "close" | "remove:<user index>" | "cancel" (the Serve context)
 	At   int    `json:"at"`
 	Par  bool   `json:"parallel"` // do not wait for the previous call to return
 }
@@ -97,6 +98,11 @@ func makeScenario(seed int64, round int, tier string) *scenario {
 			{Call: "close", At: a + rnd.Intn(total-a+1)}}
 	}
 	sc.LateDial = rnd.Intn(3) == 0
+	if round >= 9000 { // the rounds that stop serving the way Serve documents it: cancel its context, then Close
+		a := rnd.Intn(total + 1)
+		sc.CtxCancel = true
+		sc.Shutdown = []shutStep{{Call: "cancel", At: a}, {Call: "close", At: a + rnd.Intn(total-a+1)}}
+	}
 	return sc
 }
 
@@ -115,6 +121,9 @@ func (sc *scenario) describe() string {
 	}
 	if sc.LateDial {
 		b.WriteString("\n  a client keeps dialing while the server shuts down")
+	}
+	if sc.CtxCancel {
+		b.WriteString("\n  the clients connect to a listener served with Server.Serve(ctx, l); `cancel` cancels that ctx")
 	}
 	if sc.Flood > 0 {
 		fmt.Fprintf(&b, "\n  after its updates the connector submits %d more flag updates per user in a row; slow readers leave after that", sc.Flood)
@@ -225,6 +234,8 @@ type roundEnv struct {
 	listening int32
 	floodDone chan struct{}
 	slowSent  int32 // slow readers that have sent their FETCH
+	addr      string
+	cancel    context.CancelFunc
 }
 
 func (e *roundEnv) find(key, detail string) {
@@ -282,7 +293,7 @@ func (e *roundEnv) setup() error {
 			}
 		}
 		// internal ids (for MessageIDChanged) from the X-Pm-Gluon-Id header
-		c, err := wire.Dial(e.srv.Addr)
+		c, err := wire.Dial(e.addr)
 		if err != nil {
 			return err
 		}
@@ -336,7 +347,7 @@ func (e *roundEnv) client(ci int, c clientSc, rnd *rand.Rand, wg *sync.WaitGroup
 		e.out.Teardowns[k]++
 		e.mu.Unlock()
 	}
-	cl, err := wire.Dial(e.srv.Addr)
+	cl, err := wire.Dial(e.addr)
 	if err != nil {
 		// refused or no greeting: only legitimate once the application began to shut down
 		if atomic.LoadInt32(&e.shutting) == 0 {
@@ -639,6 +650,12 @@ func (e *roundEnv) application(done chan struct{}) {
 				ret <- err
 				return
 			}
+			if call == "cancel" {
+				atomic.StoreInt32(&e.shutting, 1)
+				e.cancel()
+				ret <- nil
+				return
+			}
 			var ui int
 			fmt.Sscanf(call, "remove:%d", &ui)
 			atomic.StoreInt32(&e.userDown[ui], 1)
@@ -702,7 +719,7 @@ func (e *roundEnv) lateDialer(wg *sync.WaitGroup) {
 	}
 	var conns []net.Conn
 	for i := 0; i < 400 && atomic.LoadInt32(&e.listening) != 0; i++ {
-		c, err := net.DialTimeout("tcp", e.srv.Addr, time.Second)
+		c, err := net.DialTimeout("tcp", e.addr, time.Second)
 		if err != nil {
 			break
 		}
@@ -732,7 +749,23 @@ func runRound(sc *scenario, rec *recorder) (*roundOut, error) {
 		return nil, err
 	}
 	defer srv.RemoveDir()
-	e := &roundEnv{sc: sc, srv: srv, out: out, userDown: make([]int32, sc.Users), listening: 1, floodDone: make(chan struct{})}
+	e := &roundEnv{sc: sc, srv: srv, out: out, userDown: make([]int32, sc.Users), listening: 1, floodDone: make(chan struct{}), addr: srv.Addr,
+		cancel: func() {}}
+	var l2 net.Listener
+	if sc.CtxCancel {
+		l2, err = net.Listen("tcp", "127.0.0.1:0")
+		if err != nil {
+			return nil, err
+		}
+		defer l2.Close()
+		ctx2, cancel := context.WithCancel(context.Background())
+		defer cancel()
+		if err := srv.S.Serve(ctx2, l2); err != nil {
+			return nil, err
+		}
+		e.cancel = cancel
+		e.addr = l2.Addr().String()
+	}
 	// a well-behaved application drains the error channel until it is closed
 	go func() {
 		for range srv.S.GetErrorCh() {
@@ -761,6 +794,9 @@ func runRound(sc *scenario, rec *recorder) (*roundOut, error) {
 	appDone := make(chan struct{})
 	go e.application(appDone)
 	<-appDone
+	if l2 != nil {
+		_ = l2.Close() // the application closes its listeners once Close returned
+	}
 	if out.Fatal {
 		if rec != nil {
 			out.Events = rec.stop()
@@ -801,7 +837,7 @@ func runRound(sc *scenario, rec *recorder) (*roundOut, error) {
 		sort.Strings(tops)
 		for _, k := range tops {
 			out.Leaked += len(byTop[k])
-			e.find("goroutine-leak"+k, fmt.Sprintf("%d goroutine(s) of gluon still exist %v after Server.Close returned and the listener was closed; first stack:\n%s\n\n%s",
+			e.find("goroutine-leak/"+strings.TrimLeft(k, "./"), fmt.Sprintf("%d goroutine(s) of gluon still exist %v after Server.Close returned and the listener was closed; first stack:\n%s\n\n%s",
 				len(byTop[k]), leakWait, byTop[k][0], sc.describe()))
 		}
 	}
